@@ -206,3 +206,27 @@ func VH_C10_replace_sched(kind int) {
 	vassert(vhFired(in, "r2", "other") == 2, "fires-iff-live-enabled-matching")
 	vreach("end")
 }
+
+// VH_C10_embedded_oneshot: an event may carry a rule to evaluate (evaluate!). Such a rule is
+// not stored, so nothing is stored under its working name either: evaluating an embedded
+// rule — even one with a one-shot schedule, which for stored rules means "delete after the
+// run" — leaves the location's own rules and facts alone.
+func VH_C10_embedded_oneshot(kind, sched int) {
+	env, in := vhDispatchEnv(kind)
+	_, err := env.loc.AddRule(env.ctx, "embedded", vhRule(map[string]interface{}{"never": "?x"}, "bystander"))
+	vassume(err == nil)
+	r := map[string]interface{}{"action": vhAction("act")}
+	switch sched {
+	case 0:
+		r["when"] = map[string]interface{}{"pattern": map[string]interface{}{"a": "?x"}}
+	case 1:
+		r["schedule"] = "+1h"
+	case 2:
+		r["schedule"] = "!2030-01-01T00:00:00Z"
+	}
+	env.loc.ProcessEvent(env.ctx, Map{"a": "1", "evaluate!": r})
+	vassert(len(in.execs) == 1, "embedded-rule-runs-once")
+	_, gerr := env.loc.GetRule(env.ctx, "embedded")
+	vassert(gerr == nil, "other-rules-untouched")
+	vreach("end")
+}
